@@ -240,5 +240,5 @@ def hyp_cases(draw, tier):
 
 
 PARTS = [
-    Part("copies", run, strategy=hyp_cases, n={"quick": 1200, "thorough": 50000}),
+    Part("copies", run, strategy=hyp_cases, n={"quick": 1200, "thorough": 200000}),
 ]
